@@ -103,7 +103,7 @@ fn contexts(w: i32, h: i32, quick: bool) -> Vec<(Vec<Op>, Vec<Op>)> {
 fn probes(w: i32, h: i32, src: &SrcSpec, o: Opts) -> Vec<Op> {
     let (wf, hf) = (w as f32, h as f32);
     let style = |width: f32, cap: u8, join: u8| StyleSpec { width, cap, join, miter: 4., dash: vec![], offset: 0. };
-    vec![
+    let mut v = vec![
         // rect strictly inside
         Op::Fill(PathSpec::rect(1., 1., 2., 1.), src.clone(), o),
         // integer rect touching the left edge, narrower than the surface (fast path when possible)
@@ -127,7 +127,12 @@ fn probes(w: i32, h: i32, src: &SrcSpec, o: Opts) -> Vec<Op> {
         // strokes
         Op::Stroke(PathSpec::new(vec![POp::M(1., 1.), POp::L(wf - 1., hf - 1.)]), style(1., 0, 0), src.clone(), o),
         Op::Stroke(PathSpec::new(vec![POp::M(0.5, hf - 1.), POp::L(wf * 0.5, 0.5), POp::L(wf - 0.5, hf - 1.), POp::Z]), style(0.75, 1, 1), src.clone(), o),
-    ]
+    ];
+    // a text run partly off the surface (glyph coverage = the alpha an opaque-white draw leaves)
+    if font_available() {
+        v.push(Op::Text(5.0, "o.".to_string(), -1.0, hf - 0.75, src.clone(), o));
+    }
+    v
 }
 
 fn run_one(run: &Run, shard: usize, l: &mut Local, scene: &Scene) {
@@ -257,7 +262,7 @@ impl Check for C02 {
             ];
             let txs: Vec<Xf> = vec![[1., 0., 0., 1., 2., 1.], [0.5, 0., 0., 0.5, 1.5, 0.25], [0.8660254, 0.5, -0.5, 0.8660254, 2., -1.]];
             let srcs2 = [SrcSpec::Solid(0x80002040), SrcSpec::Linear { stops: ramp(), spread: Spr::Pad, p: [0., 0., 4., 3.] }];
-            run.bound("draws after no-op calls", format!("{} transforms x {} blocks of calls that must change nothing (layers under empty clips, empty layers, draws and clear under an empty clip, off-surface clip paths, zero-width strokes) x 13 shapes x 2 modes x 2 sources on {}x{}", txs.len(), noops.len(), w, h));
+            run.bound("draws after no-op calls", format!("{} transforms x {} blocks of calls that must change nothing (layers under empty clips, empty layers, draws and clear under an empty clip, off-surface clip paths, zero-width strokes) x 13-14 shapes x 2 modes x 2 sources on {}x{}", txs.len(), noops.len(), w, h));
             run.par(noops.len() * txs.len(), |i, l| {
                 let block = &noops[i / txs.len()];
                 let xf = txs[i % txs.len()];
